@@ -42,6 +42,14 @@ Section ListHelpers.
       - auto.
     Qed.
 
+    Lemma FOP_impl_in (R' : X -> X -> Prop) l :
+      (forall x y, In x l -> In y l -> R x y -> R' x y) -> ForallOrdPairs R l -> ForallOrdPairs R' l.
+    Proof.
+      intros HI HF. induction HF as [|a l Hf Hp IH]; constructor.
+      - rewrite Forall_forall in *. intros y Hy. apply HI; [left; reflexivity|right; exact Hy|apply Hf; exact Hy].
+      - apply IH. intros x y Hx Hy. apply HI; right; assumption.
+    Qed.
+
     Lemma FOP_firstn l : forall n, ForallOrdPairs R l -> ForallOrdPairs R (firstn n l).
     Proof.
       induction l as [|a l IH]; intros [|n] HF; cbn; try constructor.
@@ -300,7 +308,7 @@ Section TruncProofs.
     length res = Nat.min k (length (dedupe pop)) /\
     incl res (dedupe pop) /\
     NoDup res /\
-    ((forall x y, deq x y = deq y x) -> NoDupDesign res) /\
+    ((forall x y, In x pop -> In y pop -> deq x y = deq y x) -> NoDupDesign res) /\
     (forall s d, In s res -> In d (dedupe pop) -> ~ In d res -> front s <= front d) /\
     (forall s d, In s res -> In d (dedupe pop) -> ~ In d res -> front s = front d ->
                  ext_ltb (cdist s) (cdist d) = false).
@@ -322,11 +330,10 @@ Section TruncProofs.
     - intros Hsym. apply FOP_firstn.
       eapply FOP_perm; [|symmetry; exact HPs|].
       + intros x y [E1 E2]. split; assumption.
-      + destruct (dedupe_exact pop) as [_ [HD _]].
-        unfold distinct_pairs in HD. clear - HD Hsym.
-        induction HD as [|a l Hf Hp IH]; constructor; [|exact IH].
-        rewrite Forall_forall in *. intros x Hx. split; [apply Hf; exact Hx|].
-        rewrite <- Hsym. apply Hf. exact Hx.
+      + destruct (dedupe_exact pop) as [Hinc [HD _]].
+        unfold distinct_pairs in HD. eapply FOP_impl_in; [|exact HD].
+        intros x y Hx Hy Hxy. cbv beta in Hxy. split; [exact Hxy|].
+        rewrite <- (Hsym x y (Hinc x Hx) (Hinc y Hy)). exact Hxy.
     - intros s d Hs Hd Hnd. apply (nd_leb_spec s d). apply Hcmp; assumption.
     - intros s d Hs Hd Hnd. apply (nd_leb_spec s d). apply Hcmp; assumption.
   Qed.
@@ -363,13 +370,14 @@ Section TruncProofs.
      of whose equals survived *)
   Theorem truncate_discarded_design pop order k res :
     truncate pop order k = Some res ->
-    (forall x, deq x x = true) -> (forall e x, deq e x = true -> front e = front x) ->
+    (forall x, deq x x = true) ->
+    (forall e x, In e pop -> In x pop -> deq e x = true -> front e = front x) ->
     forall s d, In s res -> In d pop -> (forall r, In r res -> deq r d = false) -> front s <= front d.
   Proof.
     intros Ht Hr Hf s d Hs Hd Hnone.
-    destruct (dedupe_exact pop) as [_ [_ [Hcov _]]]. destruct (Hcov Hr d Hd) as [e [He Hed]].
+    destruct (dedupe_exact pop) as [Hinc [_ [Hcov _]]]. destruct (Hcov Hr d Hd) as [e [He Hed]].
     destruct (truncate_spec _ _ _ _ Ht) as [_ [_ [_ [_ [H5 _]]]]].
-    rewrite <- (Hf e d Hed). apply H5; [exact Hs|exact He|].
+    rewrite <- (Hf e d (Hinc e He) Hd Hed). apply H5; [exact Hs|exact He|].
     intro Hin. rewrite (Hnone e Hin) in Hed. discriminate.
   Qed.
 
@@ -395,7 +403,8 @@ Section TruncProofs.
       truncate pop order k = Some res -> rank_equation pop ->
       (forall s d, In s res -> In d (dedupe pop) -> ~ In d res ->
                    pareto_compare ltb (cost d) (cost s) <> 1) /\
-      ((forall x, deq x x = true) -> (forall e x, deq e x = true -> front e = front x) ->
+      ((forall x, deq x x = true) ->
+       (forall e x, In e pop -> In x pop -> deq e x = true -> front e = front x) ->
        forall s d, In s res -> In d pop -> (forall r, In r res -> deq r d = false) ->
                    pareto_compare ltb (cost d) (cost s) <> 1).
     Proof.
@@ -963,3 +972,77 @@ Section CrowdProofs.
     destruct nb as [[[p s] lo] hi]. eapply nbr_range_pos. exact Hnbs.
   Qed.
 End CrowdProofs.
+
+(* ------------------------------------------------------------------ bounds on finite distances (ties allowed) *)
+Section CrowdBounds.
+  Context {T : Type} (ltb : T -> T -> bool) (H : SWO ltb) (add sub div : T -> T -> T) (zero one : T).
+  Context (bound : nat -> T).              (* bound k stands for the number k *)
+  Context {A : Type} (costs : A -> list T).
+  Local Notation okey := (okey zero costs).
+  Local Notation key_leb := (key_leb ltb zero costs).
+  Local Notation cstep := (cstep ltb add sub div zero costs).
+  Local Notation crowding := (crowding ltb add sub div zero costs).
+  Local Notation nobj := (nobj costs).
+  Local Notation leb := (Ord.leb ltb).
+
+  (* the arithmetic facts the bounds need; nothing else about add/sub/div is used *)
+  Definition term_bounds_hyp : Prop := forall lo a b hi,
+    leb lo a = true -> leb a b = true -> leb b hi = true -> ltb zero (sub hi lo) = true ->
+    leb zero (div (sub b a) (sub hi lo)) = true /\ leb (div (sub b a) (sub hi lo)) one = true.
+  Definition add_bounds_hyp : Prop := forall k v t,
+    leb zero v = true -> leb v (bound k) = true -> leb zero t = true -> leb t one = true ->
+    leb zero (add v t) = true /\ leb (add v t) (bound (S k)) = true.
+  Definition bound_mono_hyp : Prop := forall k, leb (bound k) (bound (S k)) = true.
+  Definition bound_start_hyp : Prop := leb zero (bound 0) = true.
+
+  Context (term_bounds : term_bounds_hyp) (add_bounds : add_bounds_hyp)
+          (bound_mono : bound_mono_hyp) (bound_start : bound_start_hyp).
+
+  Definition binv (k : nat) (l : list (A * Ext T)) : Prop :=
+    forall x v, In (x, Fin v) l -> leb zero v = true /\ leb v (bound k) = true.
+
+  Lemma binv_step k l d : binv k l -> binv (S k) (cstep l d).
+  Proof.
+    intros HI x v' Hin.
+    destruct (cstep_in ltb add sub div zero costs l d x (Fin v') Hin) as [i [e [Hn Hu]]].
+    set (s := ssort (key_leb d) l) in *. set (ks := map (okey d) s) in *. set (n := length s) in *.
+    assert (Hks : length ks = n) by apply map_length.
+    assert (Hi : i < n) by (apply nth_error_Some; rewrite Hn; discriminate).
+    assert (Hold : In (x, e) l).
+    { apply nth_error_In in Hn. unfold s in Hn. apply (proj1 (ssort_in (key_leb d) _ _)) in Hn. exact Hn. }
+    pose proof (keys_sorted ltb H zero costs l d) as HS. fold s ks in HS.
+    assert (Hle : forall a b, a <= b -> b < n -> leb (nth a ks zero) (nth b ks zero) = true).
+    { intros a b Hab Hb. destruct (Nat.eq_dec a b) as [->|Hne]; [apply (leb_refl ltb H)|].
+      unfold Ord.leb. rewrite (sorted_nth _ zero ks HS a b); [reflexivity|lia|lia]. }
+    unfold Selection.upd in Hu.
+    destruct ((i =? 0) || (i =? n - 1)) eqn:Eends; [discriminate|].
+    apply orb_false_iff in Eends as [E0 E1]. apply Nat.eqb_neq in E0. apply Nat.eqb_neq in E1.
+    destruct (ltb zero (sub (nth (n - 1) ks zero) (nth 0 ks zero))) eqn:G.
+    - destruct e as [v|]; cbn in Hu; [|discriminate]. inversion Hu; subst v'.
+      destruct (HI x v Hold) as [B0 B1].
+      destruct (term_bounds (nth 0 ks zero) (nth (i - 1) ks zero) (nth (i + 1) ks zero) (nth (n - 1) ks zero))
+        as [T0 T1]; try (apply Hle; lia); [exact G|].
+      apply add_bounds; assumption.
+    - inversion Hu; subst e. destruct (HI x v' Hold) as [B0 B1]. split; [exact B0|].
+      eapply (leb_trans ltb H); [exact B1|apply bound_mono].
+  Qed.
+
+  Lemma binv_fold ds : forall k l, binv k l -> binv (k + length ds) (fold_left cstep ds l).
+  Proof.
+    induction ds as [|d ds IH]; intros k l HI; cbn.
+    - rewrite Nat.add_0_r. exact HI.
+    - replace (k + S (length ds)) with (S k + length ds) by lia. apply IH. apply binv_step. exact HI.
+  Qed.
+
+  (* with ties: every finite crowding distance is >= 0 and <= the number of objectives *)
+  Theorem crowding_bounds f x v : In (x, Fin v) (crowding f) ->
+    leb zero v = true /\ leb v (bound (nobj f)) = true.
+  Proof.
+    unfold Selection.crowding. destruct (length f <=? 2).
+    - intros Hin. apply in_map_iff in Hin as [y [E _]]. discriminate.
+    - intros Hin. pose proof (binv_fold (seq 0 (nobj f)) 0 (map (fun x => (x, Fin zero)) f)) as HB.
+      rewrite seq_length in HB. cbn in HB. apply (fun I => HB I x v Hin).
+      intros y w Hy. apply in_map_iff in Hy as [z [E _]]. inversion E; subst.
+      split; [apply (leb_refl ltb H)|exact bound_start].
+  Qed.
+End CrowdBounds.
